@@ -963,10 +963,11 @@ class GraphParser:
             if name in self.family_map:
                 fam = True
                 rhs_members = self.family_map[name]
-                if not output and not expr:
+                if not output and (optional or not expr):
                     # Infer :succeed-all for lone family nodes, e.g. for
                     # "R1 = FAM": members default to success required, or
                     # for "FAM:succeed-all?" they default to success optional.
+                    # Also for an explicit "foo => FAM?" (as for "foo => bar?")
                     output = QUAL_FAM_SUCCEED_ALL
                 elif output and output.startswith("finish"):
                     if optional:
